@@ -207,7 +207,7 @@ def check_main(prop, tier, base, runs=None, workers=None, wall=None):
     reported = 0
     for sig in new_sigs[:4]:
         v, one = by_sig[sig][0]
-        path = write_replay(prop, v["case"], one, minimise=True)
+        path = write_replay(prop, v["case"], one, minimise=not os.environ.get("VERIF_NO_MINIMISE"))
         print("VIOLATION property=%s replay=%s" % (prop, path))
         print("  signature: %s" % sig)
         print("  detail: %s" % str(one.get("detail"))[:600])
